@@ -111,15 +111,19 @@ def finish(ctx, explanation, rule_text, level="other"):
     for f in known.get("findings", []):
         if f.get("property") == ctx.prop and f.get("status", "open") == "open":
             known_keys[f["key"]] = f
+    def base_key(k):
+        # the same construct seen in another configuration (thorough tier: `rust|` prefix) is the same finding
+        return k.split("|", 1)[1] if "|" in k.split("/", 1)[0] else k
+
     viol = [o for o in ctx.obligations if not o["ok"]]
-    new = [o for o in viol if o["key"] not in known_keys]
-    kn = [o for o in viol if o["key"] in known_keys]
+    new = [o for o in viol if base_key(o["key"]) not in known_keys]
+    kn = [o for o in viol if base_key(o["key"]) in known_keys]
     seen_known = set()
     for o in kn:
-        if o["key"] in seen_known:
+        if base_key(o["key"]) in seen_known:
             continue
-        seen_known.add(o["key"])
-        print("KNOWN-FINDING: property=%s %s [%s]" % (ctx.prop, known_keys[o["key"]].get("what", o["detail"]), o["key"]))
+        seen_known.add(base_key(o["key"]))
+        print("KNOWN-FINDING: property=%s %s [%s]" % (ctx.prop, known_keys[base_key(o["key"])].get("what", o["detail"]), base_key(o["key"])))
     ev_dir = os.environ.get("VERIF_EVIDENCE_DIR") or os.path.join(VERIF, "evidence")
     os.makedirs(ev_dir, exist_ok=True)
     report_path = os.path.join(ev_dir, "%s.report.json" % ctx.prop)
